@@ -64,4 +64,11 @@ def append : PyVal → PyVal → PyVal
     translated source applies it to the string tuples `_actions` returns) -/
 def shares (a b : PyVal) : Bool := (Py.iter a).any fun x => (Py.iter b).any fun y => pyEq x y
 
+/-- `set(v)` as a value: the list of its members (repetitions and order are irrelevant to the one operation applied to it, `issubset`;
+    members are hashable in the translated source) -/
+def setOf (v : PyVal) : PyVal := .list (Py.iter v)
+
+/-- `a.issubset(b)` on sets given by their members -/
+def issubset (a b : PyVal) : PyVal := .bool ((Py.iter a).all fun x => (Py.iter b).any fun y => pyEq y x)
+
 end Rbacx.PyLn
